@@ -320,7 +320,7 @@ def c12():
         for k, shape, what in [(0, "1 input / 1 output / 1 kernel", "the input does not spend the body's own output (no cut-through left inside a body)"),
                                (1, "0 inputs / 0 outputs / 2 kernels", "the kernels ascend strictly by hash and, with NRD on, two NRD kernels do not share an excess")]
     ] + [
-        ob("c12::aggregate_two_independent", "x", 6, "[ATTEMPT: did not finish in 3600 s] aggregate([a, b]) of two transactions that do not spend each other: kernels = union, inputs = union, offset = sum of offsets (model scalar group), independent of operand order",
+        ob("c12::aggregate_two_independent", "x", 4, "[ATTEMPT: did not finish in 3600 s in its first form (two aggregates, real sum_kernel_offsets); retried in round 5 with one aggregate in symbolic operand order and sum_kernel_offsets replaced by its model: 23 GB after 16 min and growing, stopped] aggregate([a, b]) of two transactions that do not spend each other: kernels = union, inputs = union, offset = sum of offsets (model scalar group), independent of operand order",
            "two 1-input / 0-output / 1-kernel transactions with symbolic commitments, excesses, fees and offsets", est=900, cap_s=3600, loops={"memcmp": 70, "zeroize": 36, "memcpy": 120}, replay="model", mem_est_gb=14),
         ob("c12::deaggregate_known_subset_kernel_only", "x", 3, "[ATTEMPT: symbolic execution did not finish in 660 s at unwind 3 or 6; with a 2 h cap it exceeded 40 GB after 26 min] deaggregate(mk, [t]) for kernel-only transactions: the remainder holds exactly the kernel that is not t's, nothing else, and its offset is mk's offset minus t's in the (model) scalar group - also when either offset is zero",
            "mk with 2 kernels in either order, t with one of them; symbolic excesses, both offsets any model scalar", est=600, cap_s=5400, loops={"memcmp": 70, "zeroize": 36, "memcpy": 120, "insertion_sort": 4}, replay="model", mem_est_gb=12),
